@@ -94,6 +94,17 @@ CHECKS = {
         'oracle is the definition evaluated by DFS over the link graph.',
    design_ref='DESIGN.md par.5 C16',
    note='os.walk(followlinks) protocol model; <=3 links, 4 directories; files consistent'),
+ 'C05': dict(
+   text='The real verify_file runs against a transcript standing for gpg: every sequence of 3 '
+        '(quick) / 4 (thorough) status lines over gpg\'s documented vocabulary, symbolic exit '
+        'status and timestamp forms; the outcome and the returned signature data must equal the '
+        'documented acceptance rule. _spawn_gpg exit/missing-binary handling, the isolated '
+        'environment (GNUPGHOME/TZ forced for every invocation under any caller environment, '
+        'owner trust for exactly the imported keys) and --require-signed-manifest are decided '
+        'on the real functions with recording stubs.',
+   design_ref='DESIGN.md par.5 C05',
+   note='gpg itself (cryptography, trust database, key states) is behind a binary: its '
+        'documented status protocol stands in; <=4 status lines; VALIDSIG well-formed'),
 }
 
 NOT_APPLICABLE = {
